@@ -33,6 +33,8 @@ fn bit_lit(bits: &[u8]) -> String {
     s
 }
 
+pub const OFFSETS: [usize; 24] = [0, 1, 2, 3, 4, 5, 6, 7, 8, 9, 10, 11, 12, 13, 14, 15, 16, 17, 23, 31, 33, 64, 69, 130];
+
 pub fn judge(c: &Value, lang: bool) -> Option<Value> {
     let w = c["w"].as_u64().unwrap() as usize;
     let order: Byteorder = if c["order"] == "big" { BIG } else { LITTLE };
@@ -67,7 +69,8 @@ pub fn judge(c: &Value, lang: bool) -> Option<Value> {
                 why.push(format!("from_f{}({:#x}, {}) = {:?}, expected {:?}", w, vu, oname, packed, wire));
             }
         }
-        for offset in 0..8usize {
+        // every alignment inside a byte, and fields that start beyond the first bytes of their backing buffer
+        for offset in OFFSETS.iter().copied() {
             for fill in 0..2u8 {
                 let mut buf: Vec<u8> = vec![fill; offset];
                 buf.extend_from_slice(&wire);
@@ -99,7 +102,7 @@ pub fn judge(c: &Value, lang: bool) -> Option<Value> {
                     return why;
                 }
                 // the language words, at a few alignments
-                if lang && fill == 1 && (offset == 0 || offset == 3 || offset == 7) {
+                if lang && fill == 1 && (offset == 0 || offset == 3 || offset == 7 || offset == 13 || offset == 69) {
                     let mut xs = fresh();
                     if c["kind"] == "int" {
                         // pack
@@ -186,7 +189,7 @@ pub fn cmd_replay(args: &[String]) -> i32 {
         }
     });
     std::fs::write(&args[1], out).unwrap();
-    println!("{}", json!({"cases": n, "mismatches": bad, "placements": n * 16}));
+    println!("{}", json!({"cases": n, "mismatches": bad, "placements": n * OFFSETS.len() * 2}));
     0
 }
 
@@ -208,7 +211,7 @@ pub fn cmd_record(args: &[String]) -> i32 {
         let low = if w == 128 { raw } else { raw & ((1u128 << w) - 1) };
         let wire_bs = Bitstr::from_int(raw as i128, w, order);
         let wire: Vec<u8> = wire_bs.bits().collect();
-        let off = rng.below(8);
+        let off = if rng.chance(1, 2) { rng.below(8) } else { rng.below(200) };
         let fill = rng.below(2) as u8;
         let mut buf: Vec<u8> = vec![fill; off];
         buf.extend_from_slice(&wire);
